@@ -6,6 +6,7 @@ package main
 import (
 	"fmt"
 	"strings"
+	"sync"
 	"time"
 )
 
@@ -94,12 +95,21 @@ func (c *Ctx) record(solver string, r SatResult, d time.Duration) {
 	c.stats.SolverS += d.Seconds()
 }
 
-// oneShot runs the whole query (pc + extra) in a fresh process of the given kind.
+// oneShot runs the whole query (pc + extra) in a fresh process of the given kind. The process
+// is registered in procs so that a racing caller can kill it.
 func (c *Ctx) oneShot(kind string, extra *Term, timeout time.Duration, want []*Term) (SatResult, map[*Term]string) {
+	r, vals, _ := c.oneShotK(kind, extra, timeout, want, nil)
+	return r, vals
+}
+
+func (c *Ctx) oneShotK(kind string, extra *Term, timeout time.Duration, want []*Term, started func(*SolverProc)) (SatResult, map[*Term]string, time.Duration) {
 	t0 := time.Now()
 	s, err := startSolver(kind)
 	if err != nil {
-		return Unknown, nil
+		return Unknown, nil, 0
+	}
+	if started != nil {
+		started(s)
 	}
 	defer s.close()
 	for _, t := range c.pc {
@@ -119,11 +129,60 @@ func (c *Ctx) oneShot(kind string, extra *Term, timeout time.Duration, want []*T
 		}
 	}
 	if s.errs > 0 {
-		c.stats.Errors += s.errs
 		r = Unknown
 	}
-	c.record(kind, r, time.Since(t0))
-	return r, vals
+	return r, vals, time.Since(t0)
+}
+
+// race runs several one-shot solvers concurrently; the first definite answer wins.
+func (c *Ctx) race(kinds []string, extra *Term, timeout time.Duration, want []*Term) (SatResult, map[*Term]string, string) {
+	type ans struct {
+		kind string
+		r    SatResult
+		vals map[*Term]string
+		d    time.Duration
+	}
+	ch := make(chan ans, len(kinds))
+	var mu sync.Mutex
+	var procs []*SolverProc
+	killed := false
+	for _, k := range kinds {
+		k := k
+		go func() {
+			r, vals, d := c.oneShotK(k, extra, timeout, want, func(s *SolverProc) {
+				mu.Lock()
+				procs = append(procs, s)
+				dead := killed
+				mu.Unlock()
+				if dead && s.cmd.Process != nil {
+					s.cmd.Process.Kill()
+				}
+			})
+			ch <- ans{k, r, vals, d}
+		}()
+	}
+	var win ans
+	win.r = Unknown
+	got := 0
+	for got < len(kinds) {
+		a := <-ch
+		got++
+		if a.r != Unknown && win.r == Unknown {
+			win = a
+			c.record(a.kind, a.r, a.d)
+			mu.Lock()
+			killed = true
+			for _, p := range procs {
+				if p.cmd.Process != nil {
+					p.cmd.Process.Kill()
+				}
+			}
+			mu.Unlock()
+		} else if win.r == Unknown {
+			c.record(a.kind, a.r, a.d)
+		}
+	}
+	return win.r, win.vals, win.kind
 }
 
 func (c *Ctx) mainCheck(extra *Term, timeout time.Duration, want []*Term) (SatResult, map[*Term]string) {
@@ -165,48 +224,25 @@ func (c *Ctx) Check(extra *Term, timeout time.Duration, want []*Term) (SatResult
 		}
 	}
 	hard := (extra != nil && extra.hard) || c.pcHard()
-	type attempt struct {
-		kind string
-		to   time.Duration
-	}
-	var plan []attempt
 	if hard {
-		first := timeout / 3
-		if first < 3*time.Second {
-			first = 3 * time.Second
-		}
-		plan = []attempt{{"cvc5-int", first}, {"z3", first}, {"cvc5", first}, {"cvc5-int", timeout}}
-	} else {
-		plan = []attempt{{"z3", timeout}, {"cvc5", timeout / 2}}
+		r, vals, _ := c.race([]string{"z3", "cvc5-int", "cvc5"}, extra, timeout, want)
+		return r, vals
 	}
-	for _, a := range plan {
-		var r SatResult
-		var vals map[*Term]string
-		if a.kind == "z3" {
-			r, vals = c.mainCheck(extra, a.to, want)
-		} else {
-			r, vals = c.oneShot(a.kind, extra, a.to, want)
-		}
-		if r != Unknown {
-			c.nDefinite++
-			if c.crossEach > 0 && c.nDefinite%c.crossEach == 0 {
-				other := "cvc5"
-				if a.kind != "z3" {
-					other = "z3-new"
-				}
-				if hard && a.kind != "cvc5-int" {
-					other = "cvc5-int"
-				}
-				r2, _ := c.oneShot(other, extra, timeout/2, nil)
-				if r2 != Unknown && r2 != r {
-					c.Disagree = append(c.Disagree, fmt.Sprintf("%s=%s vs %s=%s", a.kind, r, other, r2))
-					return Unknown, nil
-				}
+	r, vals := c.mainCheck(extra, timeout, want)
+	if r == Unknown {
+		r, vals, _ = c.race([]string{"cvc5", "z3-new"}, extra, timeout, want)
+	}
+	if r != Unknown {
+		c.nDefinite++
+		if c.crossEach > 0 && c.nDefinite%c.crossEach == 0 {
+			r2, _ := c.oneShot("cvc5", extra, timeout/2, nil)
+			if r2 != Unknown && r2 != r {
+				c.Disagree = append(c.Disagree, fmt.Sprintf("z3=%s vs cvc5=%s", r, r2))
+				return Unknown, nil
 			}
-			return r, vals
 		}
 	}
-	return Unknown, nil
+	return r, vals
 }
 
 // Dump returns the current query as SMT-LIB text (diagnostics).
